@@ -238,6 +238,21 @@ class Simple(SchemaObject):
                 return True
         return False
 
+    def translate(self, value, topython=True):
+        """
+        Translate between an XSD type value and a Python object.
+
+        A simple type derived by restriction has the value space of the type it
+        restricts, so its values are translated as that type translates them.
+
+        """
+        for c in self.rawchildren:
+            if isinstance(c, Restriction) and c.ref is not None:
+                base = TypeQuery(c.ref).execute(self.schema)
+                if base is not None and base is not self:
+                    return base.translate(value, topython)
+        return value
+
 
 class List(SchemaObject):
     """Represents an XSD schema <xsd:list/> node."""
